@@ -202,7 +202,7 @@ def hyp_run(ctx, res, strategy, body, max_examples, label='', max_buckets=None,
                 state['failing'].add(key)
                 raise
 
-        test.__name__ = 'check_%s_%s' % (ctx.prop, label or 'case')
+        test.__name__ = 'check_%s_%s' % (ctx.prop, ''.join(ch if ch.isalnum() else '_' for ch in (label or 'case')))
         wrapped = given(strategy)(test)
         wrapped = seed(ctx.derive(attempt * 7919 + _label_num(label)))(wrapped)
         wrapped = settings(max_examples=budget, database=None, deadline=None,
